@@ -106,6 +106,9 @@ func guardedBy(c *Ctx, rule string, fn, pred *ssa.Function, queryParam int, what
 			continue
 		}
 		for _, el := range em.Elems {
+			for el.Op == "mkiface" {
+				el = el.Args[0]
+			}
 			ok := false
 			for _, ef := range s.Effects {
 				if ef.Kind == "call" && ef.Call.Aux == calleeName(pred) && len(ef.Call.Args) >= 2 && ef.Call.Args[0] == el && ef.Call.Args[1] == q {
